@@ -61,7 +61,8 @@ type Enc struct {
 	effectFree  map[string]bool
 	havocCalls  map[string]bool
 	topFr       *frame
-	loopOrd     map[*ssa.BasicBlock]int
+	countHits   map[string]int
+	loopOrd    map[*ssa.BasicBlock]int
 }
 
 func (x *Enc) note(s string) { x.notes[s] = true }
@@ -101,6 +102,13 @@ func newEnc(eng *Engine, fn *ssa.Function, con *Contract, prop string) *Enc {
 
 // run encodes until the heap-key set and the loop modification sets are stable.
 func (x *Enc) run() {
+	currentPure = map[string]bool{}
+	escapeCache = map[*ssa.Alloc]bool{}
+	if x.con != nil {
+		for _, p := range x.con.PureParams {
+			currentPure[p] = true
+		}
+	}
 	for iter := 0; iter < 12; iter++ {
 		x.changed = false
 		x.sc = newScript()
@@ -109,6 +117,7 @@ func (x *Enc) run() {
 		x.localAllocs = nil
 		x.oblNames = map[string]int{}
 		x.strs = map[string]Term{}
+		x.countHits = nil
 		x.encodeTop()
 		if !x.changed {
 			return
@@ -197,6 +206,14 @@ func (x *Enc) encodeTop() {
 	fr.encode("true", h0)
 	// cover: precondition satisfiable and each return reachable
 	x.addCover("cover.requires", token.NoPos, "true")
+	// vacuity guard: a ghost call counter that watches no call site would make every clause about it vacuous
+	if x.con != nil {
+		for _, cs := range x.con.Counts {
+			if x.countHits[cs[0]] == 0 {
+				x.addObl("vacuity", fmt.Sprintf("%s.count[%s].matches_a_call_site", shortFn(fn), cs[0]), "count pattern "+cs[1]+" matches no call in the function", token.NoPos, "true", "false")
+			}
+		}
+	}
 	// postconditions at each return
 	if x.con != nil {
 		for ri, r := range fr.rets {
